@@ -267,6 +267,24 @@ impl Family for C06Family {
                 c.actors[a].ops.insert(pos, plain_op(OpKind::U2fRegister { challenge: challenge.clone(), application: application.clone(), handle: handle.clone(), le: false }));
             }
         }
+        // now and then the store refuses a ceremony's write and the caller sends the identical request again
+        if r.chance(1, 5) {
+            let a = r.usize(n);
+            let cands: Vec<usize> = c.actors[a].ops.iter().enumerate().filter(|(_, o)| matches!(o.kind, OpKind::Register(_) | OpKind::MakeCredential(_) | OpKind::Authenticate(_) | OpKind::GetAssertion(_))).map(|(i, _)| i).collect();
+            if !cands.is_empty() {
+                let i = *r.pick(&cands);
+                let mut again = c.actors[a].ops[i].clone();
+                again.faults.clear();
+                again.cancel_after = None;
+                again.user.clear();
+                let first = &mut c.actors[a].ops[i];
+                first.cancel_after = None;
+                first.user.clear();
+                let seam = if matches!(first.kind, OpKind::Register(_) | OpKind::MakeCredential(_)) { SeamKind::Save } else { SeamKind::Update };
+                first.faults = vec![Fault { seam, nth: 0, status: *r.pick(&[0x28u8, 0x7F, 0x2E, 0x06]), sticky: false }];
+                c.actors[a].ops.insert(i + 1, again);
+            }
+        }
         Scenario { family: "C06".into(), batch: if faulty { "faults" } else { "strict" }.into(), seed: master, index, body: Body::Ceremony(c) }
     }
 
@@ -274,7 +292,7 @@ impl Family for C06Family {
         let c = ceremony_of(scn);
         let rec = run_and_measure(c, stats);
         let mut j = Judge::new("C06", scn, &rec);
-        for p in ["error_value_scanned", "prf_output_scanned", "u2f_response_scanned", "stored_passkey_debug_scanned", "secrets_with_prf"] {
+        for p in ["error_value_scanned", "prf_output_scanned", "u2f_response_scanned", "stored_passkey_debug_scanned", "secrets_with_prf", "request_repeated_after_store_error"] {
             stats.declare_probe(p);
         }
         if rec.panic.is_some() || rec.outcome != Outcome2::Done {
@@ -294,6 +312,15 @@ impl Family for C06Family {
             stats.probe("secrets_with_prf");
         }
         let mut kinds = BTreeSet::new();
+        // a ceremony that succeeded right after the same request had failed on an injected store error
+        for o in &rec.ops {
+            if o.idx > 0 && o.result.is_ok() {
+                let (prev, this) = (&c.actors[o.actor].ops[o.idx - 1], &c.actors[o.actor].ops[o.idx]);
+                if prev.kind == this.kind && !prev.faults.is_empty() && rec.op(o.actor, o.idx - 1).is_some_and(|p| p.result.is_err()) {
+                    stats.probe("request_repeated_after_store_error");
+                }
+            }
+        }
         for o in &rec.ops {
             for (what, bytes) in renders_of(&o.result) {
                 kinds.insert(format!("{}:{what}", short_result(&o.result).split(' ').next().unwrap_or("")));
